@@ -62,6 +62,7 @@ partial def filter? : SExp → Option Filter
     some (.stop ⟨← SExp.listOf? SExp.natList? stops, ← mn.nat?, ← SExp.opt? SExp.nat? mx, ← rn.bool?, ← rs.bool?⟩)
   | .list [.atom "ngram", a, b, at_] => do some (.ngram (← a.nat?) (← b.nat?) (← at? at_))
   | .list [.atom "biword", sep] => do some (.biword (← sep.natList?))
+  | .list [.atom "delimited", d] => do some (.delimited (← d.natList?))
   | _ => none
 
 def mode? : SExp → Option Mode
